@@ -64,6 +64,7 @@ static volatile long g_double_close;    /* close(fd) right after fclose() of the
 static int (*real_fclose)(FILE*);
 static int (*real_close)(int);
 static __thread int t_last_fclosed = -1;
+static __thread int t_is_server;         /* this thread has taken the server mutex as the server */
 
 static unsigned g_prob = 0, g_maxus = 0; /* delay injection: probability per 1000, max microseconds */
 static uint64_t g_seed = 1;
@@ -138,6 +139,7 @@ int pthread_mutex_lock(pthread_mutex_t* m) {
     int isI = mytid() == g_itid;
     delay();
     int rc = real_lock(m);
+    if (!isI) t_is_server = 1;
     append(isI ? E_iLock : E_sLock, isI ? -1 : nc_now());
     delay();
     return rc;
@@ -176,7 +178,7 @@ int fclose(FILE* f) {
 }
 int close(int fd) {
     if (!real_close) real_close = dlsym(RTLD_NEXT, "close");
-    if (fd >= 0 && fd == t_last_fclosed) { __atomic_fetch_add(&g_double_close, 1, __ATOMIC_RELAXED); }
+    if (t_is_server && fd >= 0 && fd == t_last_fclosed) { __atomic_fetch_add(&g_double_close, 1, __ATOMIC_RELAXED); }
     t_last_fclosed = -1;
     return real_close(fd);
 }
